@@ -1,0 +1,114 @@
+//go:build verif
+
+package skiplist
+
+import (
+	"sync/atomic"
+	"unsafe"
+)
+
+// Simulation hooks. A simulator installs these function variables; while they
+// are nil every hook returns immediately, so a verif build that is not driven
+// by a simulator behaves like the original code.
+var (
+	SimYield  func(site int)
+	SimBlock  func(site int) uintptr
+	SimEnter  func(site int, tok uintptr)
+	SimStart  func(site int, id int)
+	SimExit   func()
+	SimLock   func(mu unsafe.Pointer)
+	SimUnlock func(mu unsafe.Pointer)
+)
+
+func vyield(site int) {
+	if f := SimYield; f != nil {
+		f(site)
+	}
+}
+
+func vblock(site int) uintptr {
+	if f := SimBlock; f != nil {
+		return f(site)
+	}
+	return 0
+}
+
+func venter(site int, tok uintptr) {
+	if f := SimEnter; f != nil {
+		f(site, tok)
+	}
+}
+
+func vstart(site int, id int) {
+	if f := SimStart; f != nil {
+		f(site, id)
+	}
+}
+
+func vexit() {
+	if f := SimExit; f != nil {
+		f()
+	}
+}
+
+func vlock(mu unsafe.Pointer) {
+	if f := SimLock; f != nil {
+		f(mu)
+	}
+}
+
+func vunlock(mu unsafe.Pointer) {
+	if f := SimUnlock; f != nil {
+		f(mu)
+	}
+}
+
+// Exported forwarders so that the nitro package shares the same hooks.
+func VerifYield(site int)              { vyield(site) }
+func VerifBlock(site int) uintptr      { return vblock(site) }
+func VerifEnter(site int, tok uintptr) { venter(site, tok) }
+func VerifStart(site int, id int)      { vstart(site, id) }
+func VerifExit()                       { vexit() }
+func VerifLock(mu unsafe.Pointer)      { vlock(mu) }
+func VerifUnlock(mu unsafe.Pointer)    { vunlock(mu) }
+
+// Read-only accessors for oracles. They never yield.
+
+// VerifNext is getNext without the yield point.
+func (n *Node) VerifNext(level int) (*Node, bool) {
+	nodeRefAddr := uintptr(unsafe.Pointer(n)) + nodeHdrSize + nodeRefSize*uintptr(level)
+	wordAddr := (*uint64)(unsafe.Pointer(nodeRefAddr + uintptr(7)))
+	v := atomic.LoadUint64(wordAddr)
+	deleted := v&deletedFlag == deletedFlag
+	ptr := (*Node)(unsafe.Pointer(uintptr(v >> 8)))
+	return ptr, deleted
+}
+
+// VerifLevel returns the current top level of the skiplist.
+func (s *Skiplist) VerifLevel() int {
+	return int(atomic.LoadInt32(&s.level))
+}
+
+// VerifRawStats returns a copy of the global statistics counters.
+func (s *Skiplist) VerifRawStats() (levelNodes [MaxLevel + 1]int64, softDeletes, nodeAllocs, nodeFrees, usedBytes int64) {
+	for i := range s.Stats.levelNodesCount {
+		levelNodes[i] = atomic.LoadInt64(&s.Stats.levelNodesCount[i])
+	}
+	return levelNodes, atomic.LoadInt64(&s.Stats.softDeletes), atomic.LoadInt64(&s.Stats.nodeAllocs),
+		atomic.LoadInt64(&s.Stats.nodeFrees), atomic.LoadInt64(&s.Stats.usedBytes)
+}
+
+// VerifPending reports barrier bookkeeping: sessions allocated, destructed,
+// and queued but not yet destructed (counted by a non-yielding walk).
+func (ab *AccessBarrier) VerifPending() (allocated, freed int64, queued int) {
+	if ab.freeq != nil {
+		for n, _ := ab.freeq.head.VerifNext(0); n != nil && n != ab.freeq.tail; {
+			next, deleted := n.VerifNext(0)
+			if !deleted {
+				queued++
+			}
+			n = next
+		}
+	}
+	return ab.numAllocated, ab.numFreed, queued
+}
